@@ -165,6 +165,12 @@ TEMPLATES = {
     "rename_onto_bound": (2, 0, lambda R: ("ren", _red(("mul", _L(0), _L(1)), ("a",)), (("b", "a"),))),
     "rename_after_sum": (3, 1, lambda R: ("ren", _red(("add", ("mul", _L(0), _L(1)), _L(2)), R[0]), (("b", "y"),))),
     "reduce_of_reduce_sum": (3, 2, lambda R: _red(("add", _red(("mul", _L(0), _L(1)), R[0]), _L(2)), R[1])),
+    # the SAME reduction occurring twice / three times (built lazily it is one cons-hashed object with one bound name):
+    # unfolding must not identify the bound variables of the occurrences
+    "shared_reduce_squared": (1, 1, lambda R: ("mul", _red(_L(0), R[0]), _red(_L(0), R[0]))),
+    "shared_reduce_cubed": (1, 1, lambda R: ("mul", ("mul", _red(_L(0), R[0]), _red(_L(0), R[0])), _red(_L(0), R[0]))),
+    "shared_reduce_under_reduce": (2, 2, lambda R: _red(("mul", ("mul", _red(_L(0), R[0]), _red(_L(0), R[0])), _L(1)), R[1])),
+    "shared_product_reduce_sum": (2, 1, lambda R: ("add", _red(("mul", _L(0), _L(1)), R[0]), _red(("mul", _L(0), _L(1)), R[0]))),
 }
 
 
